@@ -986,23 +986,37 @@ class Engine:
         raise Unsupported(f"iteration over {x.k}")
 
     def materialize(self, x, fr):
-        """iterator -> V sequence term with pointwise characterisation"""
+        """iterator -> V sequence term with pointwise characterisation.  Inside a quantified context (the element
+        function of an enclosing comprehension / quantifier is being evaluated under bound indices) the sequence is a
+        fresh *function* of those bound indices, and its characterisation is quantified over them."""
         spec = x.t
         if x.meta and "V" in x.meta:
             return x.meta["V"]
         if spec.length is None or spec.elem is None:
             raise Unsupported("cannot materialise unbounded/lazy iterator")
-        r = z3.Const(fresh_name("seq"), V)
+        bound = list(getattr(self, "_bound", []))
+        if bound:
+            F = z3.Function(fresh_name("seqf"), *[b.sort() for b in bound], V)
+            r = F(*bound)
+        else:
+            r = z3.Const(fresh_name("seq"), V)
         st = fr.st
-        st.assume(T.is_VObj(r))
-        st.assume(T.tag(r) == T.TAG["tuple"])
-        st.assume(T.slen(r) == z3.If(spec.length >= 0, spec.length, 0))
         i = z3.Int(fresh_name("i"))
-        body = self.as_V(spec.elem(i))
-        st.assume(z3.ForAll([i], z3.Implies(z3.And(0 <= i, i < spec.length), T.sget(r, i) == body),
+        self._bound = bound + [i]
+        try:
+            body = self.as_V(spec.elem(i))
+        finally:
+            self._bound = bound
+        facts = z3.And(T.is_VObj(r), T.tag(r) == T.TAG["tuple"], T.slen(r) == z3.If(spec.length >= 0, spec.length, 0))
+        if bound:
+            st.assume(z3.ForAll(bound, facts, patterns=[r]))
+        else:
+            st.assume(facts)
+        st.assume(z3.ForAll(bound + [i], z3.Implies(z3.And(0 <= i, i < spec.length), T.sget(r, i) == body),
                             patterns=[T.sget(r, i)]))
         x.meta = dict(x.meta or {})
-        x.meta["V"] = r
+        if not bound:
+            x.meta["V"] = r
         return r
 
     # ------------------------------------------------------------------ assignment targets
@@ -1110,6 +1124,22 @@ class Engine:
                 if fr.old is None:
                     return self.ev(node.args[0], fr)
                 return self.ev(node.args[0], fr.sub(st=fr.old, old=None))
+            if nm == "snap" and fr.spec:
+                label = node.args[0].value
+                sn = fr.st.fork()
+                sn.snaps = {}
+                fr.st.snaps[label] = sn
+                return NONE
+            if nm == "at" and fr.spec:
+                label = node.args[0].value
+                if label not in fr.st.snaps:
+                    raise Unsupported(f"no snapshot {label!r} on this path")
+                sn = fr.st.snaps[label].fork()
+                sn.pc = fr.st.pc      # facts learned since then remain available
+                # names bound since the snapshot (loop targets, ghost indices) stay visible unless shadowed
+                for k_, v_ in fr.st.env.items():
+                    sn.env.setdefault(k_, v_)
+                return self.ev(node.args[1], fr.sub(st=sn, old=None))
             if nm in ("forall", "exists") and fr.spec:
                 return self.quantifier(nm, node, fr)
             if nm == "implies":
@@ -1172,6 +1202,8 @@ class Engine:
                 c = z3.Int(fresh_name(nm))
                 st.env[nm] = mk_int(c)
             bound.append(c)
+        prev_bound = list(getattr(self, "_bound", []))
+        self._bound = prev_bound + bound
         try:
             body = self.truth(self.ev(lam.body, fr), fr)
             pats = []
@@ -1187,6 +1219,7 @@ class Engine:
                         pats.append(self._pat_term(p, fr))
         finally:
             st.env = saved
+            self._bound = prev_bound
         if which == "forall":
             return mk_bool(z3.ForAll(bound, body, patterns=pats) if pats else z3.ForAll(bound, body))
         return mk_bool(z3.Exists(bound, body))
